@@ -44,7 +44,7 @@ def main():
     meta["test_suite_on_changed"] = outt.strip().splitlines()[-4:]
     meta["checks"] = {}
     for c in checks:
-        rc2, out2 = sh("VERIF_REPO=%s /verif/check %s" % (cf, c), cwd="/verif", timeout=3000)
+        rc2, out2 = sh("VERIF_TAG=ing_%s VERIF_REPO=%s /verif/check %s" % (name, cf, c), cwd="/verif", timeout=3000)
         lines = [l for l in out2.splitlines() if l.startswith("VIOLATION") or l.startswith("KNOWN-FINDING") or l.startswith(c + " tier=")]
         replays = []
         for l in lines:
